@@ -1325,7 +1325,9 @@ impl Drop for Debugger {
 /// Read N bytes from `PID` process.
 pub fn read_memory_by_pid(pid: Pid, addr: usize, read_n: usize) -> Result<Vec<u8>, nix::Error> {
     let mut read_reminder = read_n as isize;
-    let mut result = Vec::with_capacity(read_n);
+    // the count may come from the user or from debugee memory: do not reserve what may never
+    // be readable, the vector grows with the words that really arrive
+    let mut result = Vec::with_capacity(read_n.min(4096));
 
     let single_read_size = mem::size_of::<c_long>();
 
